@@ -45,7 +45,7 @@ U("c09_sub_asset_paths_css_offset", ["C09"], "h_sub_paths", ["C09/sub_paths.c"],
   bounds={"shape": "one 'css' metadata record naming the one stored asset; BLOCK_META followed by a paragraph", "metadata span, length change": "symbolic"},
   functions=["sub_asset_paths"],
   callees={"d_string_replace_text_in_range": "contract stub (C19): returns the length change; checks the range and the replacement", "traverse_for_images": "contract stub recording *offset at entry (its contract: c09_traverse_for_images_offsets)",
-           "HASH_FIND_STR (uthash)": "real macro code over a real one-entry table", "stack_peek_index/stack_new/stack_push": "body", "memcpy/strcmp": "byte-loop models", "token_skip_until_type": "contract stub"},
+           "HASH_FIND_STR (uthash)": "real macro code over a real one-entry table", "stack_peek_index/stack_new/stack_push": "body", "memcpy/strcmp": "byte-loop models", "token_skip_until_type": "contract stub (checked bounded against the real function: C15 unit chain_skip_until)"},
   min_obligations=10, timeout=300, cost=15, assumptions=[NOFAIL])
 
 # ---- an inline image whose URL is longer than the caller's 1000-byte scratch buffer (finding 34, fixed in /repo 612fa98)
